@@ -12,7 +12,9 @@
 (* one (field lit2 = [op, w, atom, ann]) that is solved under the          *)
 (* substitutions of the first - annotation variables that already have a   *)
 (* value must then EQUAL the stored bound (unification):                   *)
-(*   [h, ht, op, w, atom, ann (, lit2)]                                    *)
+(*   [h, ht, op, w, atom, ann (, lit2) (, let)]                            *)
+(* and optionally a let-transform (field let = <<variable, term>>) whose   *)
+(* variable may occur in the head; the head annotation applies as usual.   *)
 (*   op  in {"none","dm","bm","dp","bp"}  (diamond/box, minus/plus)        *)
 (*   w   = <<a, b>> window in units, a <= b                                *)
 (*   ann = <<"none">> | <<"vars", S, E>> | <<"var1", T>>                   *)
@@ -52,9 +54,11 @@ HeadInterval(r, s, now) ==
     [] r.ht[1] = "vars"  -> <<s[r.ht[2]][2], s[r.ht[3]][2]>>
     [] r.ht[1] = "const" -> <<r.ht[2], r.ht[3]>>
 
+HasLet(r) == "let" \in DOMAIN r
+WithLet(r, s) == IF HasLet(r) THEN Ext(s, r.let[1], EvalTerm(r.let[2], s)) ELSE s
 \* one application of all rules: <<regular facts, temporal facts>>
 TStep(rules, T, now) ==
-  LET out == UNION {{<<r, s>> : s \in TLitSols(r, T, now)} : r \in rules} IN
+  LET out == UNION {{<<r, WithLet(r, s)>> : s \in TLitSols(r, T, now)} : r \in rules} IN
   << {Inst(x[1].h, x[2]) : x \in {y \in out : y[1].ht[1] = "none"}},
      {<<Inst(x[1].h, x[2]), HeadInterval(x[1], x[2], now)>> : x \in {y \in out : y[1].ht[1] # "none"}} >>
 
